@@ -263,6 +263,7 @@ func TestVerifC18Attribution(t *testing.T) {
 					cr = rig.Carrier{Mode: rapid.SampledFrom([]string{"close", "reset", "freeze"}).Draw(rt, "mode"), FreezeMs: 100, CutUpAfter: int64(rapid.IntRange(1, 600).Draw(rt, "cut"))}
 				}
 				cr.ClientIP, cr.NoClientIP = genIP(rt)
+				cr.Preamble = rig.GenPreamble(rt)
 				distinct[cr.ClientIP] = true
 				s.Carriers = append(s.Carriers, cr)
 			}
